@@ -28,7 +28,12 @@ class CountingIn(io.StringIO):
         return io.StringIO.readline(self, *a)
 
 
-def run_dialogue(vtag, all_metrics, answers, no_colors=True, limit=None):
+# other spellings of the version argument that denote the same version (2 == 2.0, 3 == 3.0,
+# 4 == 4.0; the docstring of ask_interactively says "2 or 3.0/3.1 or 4")
+VERSION_ARG_ALT = {"2": [2, 2.0], "3.0": [3.0, 3], "3.1": [3.1], "4": [4.0, 4]}
+
+
+def run_dialogue(vtag, all_metrics, answers, no_colors=True, limit=None, version_arg=None):
     """Returns dict(ret=..|None, exc=..|None, out=str, reads=int).  answers: list of str
     (without newline).  EOF after the last answer."""
     L = lib()
@@ -40,7 +45,8 @@ def run_dialogue(vtag, all_metrics, answers, no_colors=True, limit=None):
     r = {"ret": None, "exc": None}
     try:
         try:
-            r["ret"] = L.interactive.ask_interactively(VERSION_ARG[vtag], all_metrics, no_colors)
+            r["ret"] = L.interactive.ask_interactively(VERSION_ARG[vtag] if version_arg is None else version_arg,
+                                                       all_metrics, no_colors)
         except ReadLimit:
             r["exc"] = "ReadLimit"
         except EOFError:
@@ -100,6 +106,9 @@ def question_order(vtag, all_metrics):
         try:
             order = [f.split(":")[0] for f in body.split("/")]
         except Exception:
+            order = None
+        # usable as a witness only if it names each expected metric exactly once
+        if order is not None and (len(order) != len(set(order)) or set(order) != metric_set(vtag, all_metrics)):
             order = None
     _order_cache[key] = (order, r)
     return order, r
